@@ -394,15 +394,38 @@ Proof.
   destruct (egress_loop egress_fuel (check_retx k) []) as [k1 out]. cbn [fst] in *. apply IdxInv_reap_closed, H1.
 Qed.
 
-Lemma IdxInv_k_udp_send_to k fd pl dst : IdxInv k -> IdxInv (fst (k_udp_send_to k fd pl dst)).
+Lemma IdxInv_udp_send_core k fd s pl dst : In fd (keys k) -> IdxInv k -> IdxInv (fst (udp_send_core k fd s pl dst)).
 Proof.
-  intros H. unfold k_udp_send_to. destruct (lookup k fd) as [s|] eqn:L; [|exact H].
-  destruct (lookup_some_in _ _ _ L) as [_ Hfd].
-  destruct (negb _); [exact H|]. destruct (_ <? _); [exact H|].
+  intros Hfd H. unfold udp_send_core. destruct (_ <? _); [exact H|].
   assert (IdxInv (fst (match s_bound s with Some b => (k, Ready b) | None => auto_bind k fd false (fst dst) end))) as H1.
   { destruct (s_bound s); [exact H|apply IdxInv_auto_bind; assumption]. }
   destruct (match s_bound s with Some b => _ | None => _ end) as [k1 r]; cbn [fst] in *.
   destruct r as [|b|e]; try exact H1. apply IdxInv_emit, H1.
+Qed.
+
+Lemma IdxInv_k_udp_send_to k fd pl dst : IdxInv k -> IdxInv (fst (k_udp_send_to k fd pl dst)).
+Proof.
+  intros H. unfold k_udp_send_to. destruct (lookup k fd) as [s|] eqn:L; [|exact H].
+  destruct (lookup_some_in _ _ _ L) as [_ Hfd].
+  destruct (negb _); [exact H|]. apply IdxInv_udp_send_core; assumption.
+Qed.
+
+Lemma IdxInv_k_udp_send k fd pl : IdxInv k -> IdxInv (fst (k_udp_send k fd pl)).
+Proof.
+  intros H. unfold k_udp_send. destruct (lookup k fd) as [s|] eqn:L; [|exact H].
+  destruct (lookup_some_in _ _ _ L) as [_ Hfd].
+  destruct (s_peer s); [apply IdxInv_udp_send_core; assumption|exact H].
+Qed.
+
+Lemma IdxInv_k_udp_connect k fd peer : IdxInv k -> IdxInv (fst (k_udp_connect k fd peer)).
+Proof.
+  intros H. unfold k_udp_connect. destruct (lookup k fd) as [s|] eqn:L; [|exact H].
+  destruct (lookup_some_in _ _ _ L) as [_ Hfd].
+  destruct (negb _); [exact H|].
+  assert (IdxInv (fst (match s_bound s with Some b => (k, Ready b) | None => auto_bind k fd false (fst peer) end))) as H1.
+  { destruct (s_bound s); [exact H|apply IdxInv_auto_bind; assumption]. }
+  destruct (match s_bound s with Some b => _ | None => _ end) as [k1 r]; cbn [fst] in *.
+  destruct r as [|b|e]; try exact H1. apply IdxInv_upd_sock; [|exact H1]. intros s0 Hs. exact Hs.
 Qed.
 
 Lemma IdxInv_new c a : IdxInv (new_kernel c a).
@@ -423,6 +446,8 @@ Proof.
   - apply IdxInv_k_deliver, H.
   - apply IdxInv_k_egress, H.
   - apply IdxInv_k_udp_send_to, H.
+  - apply IdxInv_k_udp_connect, H.
+  - apply IdxInv_k_udp_send, H.
 Qed.
 
 Lemma kreach_IdxInv k : kreach k -> IdxInv k.
